@@ -311,20 +311,14 @@ class ItertoolsModel(Model):
         eng = self.eng
         if d == "itertools.cycle":
             arg = eng.eval(st, node.args[0])
-            if isinstance(arg, VList) and z3.is_int_value(arg.n) and \
-                    arg.n.as_long() == 1:
-                v = VFunc(name="cycle1")
-                v.elem = wrap(arg.eshape, arg.arr[0])
-                return v
             if isinstance(arg, VList):
                 n_ = z3.simplify(arg.n)
                 if z3.is_int_value(n_) and n_.as_long() == 1:
                     v = VFunc(name="cycle1")
                     v.elem = wrap(arg.eshape, z3.simplify(arg.arr[0]))
                     return v
-            r = self.ext._first("cycle_of", st, arg, node)
-            if r is not None:
-                return r
+                sm = self.lib.stream_model()
+                return VStream(sm.CYC(sm.seq_of_list(st, arg)))
             raise self.E.Unsupported("itertools.cycle of this value")
         if d == "itertools.chain" and len(node.args) == 2:
             a = eng.eval(st, node.args[0])
